@@ -35,6 +35,7 @@
 #include <charconv>
 #include <cmath>
 #include <cstdint>
+#include <cstdio>
 #include <cstdlib>
 #include <cstring>
 #include <functional>
@@ -855,7 +856,7 @@ private:
     case JsonType::Int:
       return std::to_string(getInt());
     case JsonType::Double:
-      return std::to_string(getDouble());
+      return _formatDouble(getDouble());
     case JsonType::String:
       return _escapeString(getString());
     case JsonType::Array:
@@ -865,6 +866,31 @@ private:
     default:
       return "null";
     }
+  }
+
+  /// \brief Shortest decimal form that parses back to exactly the same double.
+  /// std::to_string() uses "%f" (six decimals) and loses small or precise values.
+  static std::string _formatDouble(double d)
+  {
+    if (!std::isfinite(d))
+    {
+      return std::to_string(d); // JSON cannot represent inf/nan; behaviour unchanged
+    }
+    char buf[40];
+    for (int precision = 15; precision <= 17; ++precision)
+    {
+      std::snprintf(buf, sizeof(buf), "%.*g", precision, d);
+      if (std::strtod(buf, nullptr) == d)
+      {
+        break;
+      }
+    }
+    std::string result(buf);
+    if (result.find_first_of(".eE") == std::string::npos)
+    {
+      result += ".0"; // keep it a floating-point literal so it parses back as a double
+    }
+    return result;
   }
 
   std::string _serializeArray(const SerializeOptions &options, int depth) const
